@@ -7,7 +7,9 @@ interpreter), 2 harness failure (never reported as success, never as a violation
 import concurrent.futures
 import faulthandler
 import importlib
+import itertools
 import json
+import pickle
 import multiprocessing
 import os
 import signal
@@ -48,11 +50,21 @@ def safe_execute(prop, scenario):
     signal.setitimer(signal.ITIMER_REAL, RUN_TIMEOUT_S)
     try:
         try:
+            for earlier in scenario.get("_history", ()):
+                # scenarios that ran earlier in the same process: only needed when the code under test
+                # keeps process-global state (caches, module-level variables) that leaks between uses
+                try:
+                    prop.execute(earlier)
+                except core.Violation:
+                    pass
             result = prop.execute(scenario)
         except core.Violation as violation:
             result = core.Result()
             result.violation = violation.as_dict()
             result.nontrivial = True
+        if isinstance(result.violation, dict) and scenario.get("_history"):
+            result.violation = dict(result.violation,
+                                    features=sorted(set(result.violation["features"]) | {"needs-process-history"}))
         return result, None
     except RunTimeout:
         return None, "run exceeded %d s wall clock (hang?)\nscenario=%s" % (RUN_TIMEOUT_S, core.canonical(scenario)[:2000])
@@ -62,16 +74,73 @@ def safe_execute(prop, scenario):
         signal.setitimer(signal.ITIMER_REAL, 0)
 
 
-def shrink(prop, scenario, violation, max_execs=600):
+def in_child(function, *args):
+    """Run ``function(*args)`` in a forked child of this (pristine) process and return its result."""
+    read_end, write_end = os.pipe()
+    pid = os.fork()
+    if pid == 0:
+        status = 0
+        try:
+            os.close(read_end)
+            try:
+                payload = pickle.dumps(("ok", function(*args)))
+            except BaseException:  # noqa: B902 - reported to the parent
+                payload = pickle.dumps(("error", traceback.format_exc()))
+                status = 1
+            with os.fdopen(write_end, "wb") as stream:
+                stream.write(payload)
+        finally:
+            os._exit(status)
+    os.close(write_end)
+    with os.fdopen(read_end, "rb") as stream:
+        data = stream.read()
+    os.waitpid(pid, 0)
+    if not data:
+        raise HarnessError("forked child died without a result")
+    kind, value = pickle.loads(data)
+    if kind == "error":
+        raise HarnessError("forked child failed:\n" + value)
+    return value
+
+
+def execute_isolated(prop, scenario):
+    """safe_execute in a forked child: no state of earlier scenarios can influence it."""
+    return in_child(safe_execute, prop, scenario)
+
+
+def shrink(prop, scenario, violation, max_execs=600, executor=None):
     """Greedy delta debugging over the property's candidate generator; same oracle rule must persist."""
+    executor = executor or safe_execute
     best, best_violation, execs = scenario, violation, 0
     improved = True
     while improved and execs < max_execs:
         improved = False
+        history = best.get("_history")
+        if history:
+            # first try to get rid of process history: halves, then single scenarios
+            size = max(1, len(history) // 2)
+            while size >= 1 and not improved:
+                for start in range(0, len(history), size):
+                    candidate = dict(best, _history=history[:start] + history[start + size:])
+                    if not candidate["_history"]:
+                        del candidate["_history"]
+                    result, error = executor(prop, candidate)
+                    execs += 1
+                    if error is None and result.violation is not None and result.violation["rule"] == best_violation["rule"]:
+                        best, best_violation = candidate, result.violation
+                        improved = True
+                        break
+                if size == 1:
+                    break
+                size //= 2
+            if improved:
+                continue
         for candidate in prop.candidates(best):
             if execs >= max_execs:
                 break
-            result, error = safe_execute(prop, candidate)
+            if history:
+                candidate = dict(candidate, _history=history)
+            result, error = executor(prop, candidate)
             execs += 1
             if error is None and result.violation is not None and result.violation["rule"] == best_violation["rule"]:
                 best, best_violation = candidate, result.violation
@@ -115,39 +184,66 @@ def _account(acc, scenario, result, keep_digest, want_sample):
         acc["samples"].append({"scenario": scenario, "trace": result.trace})
 
 
+def _batch_scenarios(prop, tier, base_seed, start, count, source):
+    if source == "search":
+        return (scenario_for(prop, tier, base_seed, index) for index in range(start, start + count))
+    return prop.sweep_slice(tier, start, count)
+
+
+def _run_batch(prop_id, tier, base_seed, start, count, digest_below, source):
+    """Runs in a forked child of a pool worker: executes the batch sequentially in ONE process (so that
+    process-global state of the code under test can leak from one scenario to the next, as it would in
+    a long-running program) and reports raw violations with their position in the batch."""
+    prop = load_prop(prop_id)
+    acc = _new_acc()
+    seen_raw = set()
+    for position, scenario in enumerate(_batch_scenarios(prop, tier, base_seed, start, count, source)):
+        result, error = safe_execute(prop, scenario)
+        if error is not None:
+            if len(acc["errors"]) < 3:
+                acc["errors"].append(error)
+            acc["n"] += 1
+            continue
+        _account(acc, scenario, result, source == "search" and scenario.get("index", 1 << 60) < digest_below,
+                 source == "search" and start == 0)
+        if result.violation is not None:
+            raw_key = core.sig_key(result.violation)
+            acc["raw_counts"][raw_key] = acc["raw_counts"].get(raw_key, 0) + 1
+            if raw_key not in seen_raw and len(seen_raw) < 6:
+                seen_raw.add(raw_key)
+                acc["violations"].append({"scenario": scenario, "violation": result.violation, "raw": raw_key,
+                                          "position": position, "original_index": scenario.get("index")})
+    return acc
+
+
 def _work(prop_id, tier, base_seed, start, count, digest_below, source):
-    """Worker: run a batch.  ``source`` is "search" (seeded) or "sweep" (enumerated slice)."""
+    """Pool worker (stays pristine: it never executes a scenario itself)."""
     faulthandler.dump_traceback_later(BATCH_WATCHDOG_S, exit=True)
     try:
         prop = load_prop(prop_id)
-        acc = _new_acc()
-        shrunk_raw = {}
-        if source == "search":
-            scenarios = (scenario_for(prop, tier, base_seed, index) for index in range(start, start + count))
-        else:
-            scenarios = prop.sweep_slice(tier, start, count)
-        for scenario in scenarios:
-            result, error = safe_execute(prop, scenario)
-            if error is not None:
-                if len(acc["errors"]) < 3:
-                    acc["errors"].append(error)
-                acc["n"] += 1
-                continue
-            _account(acc, scenario, result, source == "search" and scenario.get("index", 1 << 60) < digest_below,
-                     source == "search" and start == 0)
-            if result.violation is not None:
-                raw_key = core.sig_key(result.violation)
-                acc["raw_counts"][raw_key] = acc["raw_counts"].get(raw_key, 0) + 1
-                if raw_key not in shrunk_raw and len(shrunk_raw) < 4:
-                    small, small_violation, execs = shrink(prop, scenario, result.violation)
-                    shrunk_raw[raw_key] = core.sig_key(small_violation)
-                    acc["violations"].append({"scenario": small, "violation": small_violation, "raw": raw_key,
-                                              "shrink_execs": execs, "original_index": scenario.get("index")})
-                elif raw_key not in shrunk_raw:
-                    acc["violations"].append({"scenario": scenario, "violation": result.violation, "raw": raw_key,
-                                              "shrink_execs": 0, "unshrunk": True,
-                                              "original_index": scenario.get("index")})
-                    shrunk_raw[raw_key] = None
+        acc = in_child(_run_batch, prop_id, tier, base_seed, start, count, digest_below, source)
+        confirmed = []
+        for item in acc["violations"]:
+            scenario, violation = item["scenario"], item["violation"]
+            scenario.pop("_single", None)
+            result, error = execute_isolated(prop, scenario)
+            if error is not None or result.violation is None or result.violation["rule"] != violation["rule"]:
+                # not reproducible alone: it needs what ran before it in the same process
+                earlier = list(itertools.islice(_batch_scenarios(prop, tier, base_seed, start, count, source),
+                                                item["position"]))
+                candidate = dict(scenario, _history=earlier)
+                result, error = execute_isolated(prop, candidate)
+                if error is not None or result.violation is None:
+                    acc["errors"].append("violation %s at batch %s[%d..] position %d reproduces neither alone nor with "
+                                         "the batch prefix as process history" % (item["raw"], source, start, item["position"]))
+                    continue
+                scenario, violation = candidate, result.violation
+            else:
+                violation = result.violation
+            small, small_violation, execs = shrink(prop, scenario, violation, executor=execute_isolated)
+            confirmed.append({"scenario": small, "violation": small_violation, "raw": item["raw"], "shrink_execs": execs,
+                              "original_index": item.get("original_index")})
+        acc["violations"] = confirmed
         return acc
     finally:
         faulthandler.cancel_dump_traceback_later()
@@ -305,9 +401,6 @@ def run_check(prop_id, tier, base_seed):
     # ---- violations: group by minimised signature, match known findings, write replays -------
     by_sig = {}
     for item in total["violations"]:
-        if item.get("unshrunk"):
-            small, small_violation, execs = shrink(prop, item["scenario"], item["violation"])
-            item = dict(item, scenario=small, violation=small_violation, shrink_execs=execs)
         key = core.sig_key(item["violation"])
         current = by_sig.get(key)
         if current is None or len(core.canonical(item["scenario"])) < len(core.canonical(current["scenario"])):
@@ -320,9 +413,9 @@ def run_check(prop_id, tier, base_seed):
             known_matched.append(key)
             print("KNOWN-FINDING: property=%s %s [%s]" % (prop_id, known[key]["what"], key))
             continue
-        result, error = safe_execute(prop, item["scenario"])
+        result, error = execute_isolated(prop, item["scenario"])
         if error is not None or result.violation is None:
-            harness_problems.append("minimised scenario for %s does not reproduce in-process: %s" % (key, error))
+            harness_problems.append("minimised scenario for %s does not reproduce in an isolated process: %s" % (key, error))
             continue
         name = "%s-%s-%s.json" % (prop_id, base_seed, core.digest(item["scenario"])[:12])
         path = os.path.join(REPLAY_DIR, name)
